@@ -14,7 +14,7 @@ CHECKS = {
          'counterexamples of 11 mutant models) are replayed on the real state.State; TLC then validates every recorded call, '
          'return value and state against the model (strict trace validation) and evaluates the C13 formulas on every '
          'recorded implementation state. The property is stated as step-by-step agreement with a reference queue, so '
-         'model checking the reference plus trace validation of the code is the matching level.',
+         'model checking the reference plus trace validation of the code is the matching level. Added: spec/BlockLoop.tla - what the real headers handler, block handler and processBlocks loop (parked at its named point) write to the connection as getdata(block): each block once, in chain order, at most W outstanding; and a batch of ChainSync traces (adversarial environment, mixed headers messages) judged by RequestsInFlight (every unfilled block of the window has its request or answer under way).',
     design_ref='DESIGN.md 5.1, 6 (C13)',
     note='Trusted: TLC, the overlay accessor that reads the window under state.lock, the stub wire.Block (size only). '
          'Exhaustive only for W<=4 on the model; W=10 reached by generated behaviours, not exhaustively.',
@@ -64,7 +64,7 @@ CHECKS = {
     category='model_checking',
     text='Chain part of C12: block messages of an untrusted connection (matching and non-matching body for outstanding requests) are delivered '
          'through the real untrusted message handlers into runs of a well-behaved trusted peer; the chain invariants must hold and every run must '
-         'still converge. TLC checks the same on the model (safety, and Convergence in the calm environment).',
+         'still converge. TLC checks the same on the model (safety, and Convergence in the calm environment). Added: spec/UntrustedPeer.tla - one untrusted connection as its read loop (check / receive alternation), verification against the stored chain, gating, peer score, broadcast; the real UntrustedNode.monitorIncoming runs over an in-memory connection, parked at two named points.',
     design_ref='DESIGN.md 5.11, 6 (C12)',
     note='Covers the untrusted block path (the stall F4, fixed). Untrusted headers verification, inv and tx (vouching) are covered by the '
          'TxPipeline/TxRequests checks where built; see DESIGN.md.',
@@ -124,7 +124,7 @@ CHECKS = {
          'inventory handlers, body arrival, periodic Check, confirmation clean-up) checked exhaustively by TLC (Exclusive, NoneAfterBody, Rerequest, '
          'Forgotten, TrackedOrAsked). TLC-simulated histories over a trusted and two untrusted connections (real UntrustedNode objects driven '
          'without sockets) are replayed on the real handlers, trackers and mempool with timestamp shifting; every getdata is recorded with its '
-         'connection and time; TLC evaluates the formulas on the recorded history and validates each step against the specification.',
+         'connection and time; TLC evaluates the formulas on the recorded history and validates each step against the specification. Added: bulk replay (every txid of the specification stands for a group of 120 real transactions; all members must be treated alike) and the action ConfirmOos (the confirming block is processed while out of sync).',
     design_ref='DESIGN.md 5.5, 6 (C14)',
     note='Connections are stepped sequentially (no concurrent goroutines in this check). F20 (final partial getdata never sent) and F17 (tracker '
          'stopped after reconnect) were repaired.',
@@ -174,7 +174,7 @@ CHECKS = {
     text='Same specification and driver: notification ids 1..5 in any order (repeated, skipped, out of order), before and after the accept, across '
          'drops and re-declared Ready. TLC checks NotifyP / ReadyP / DropP / QuietP on the model; on the real client TLC evaluates NotifyInOrder '
          '(delivered iff accepted and id = next; next = id + 1), ReadySetsNext, ResumePointSurvives, NotifyAllInOrder (in-sync and headers '
-         'notifications in order), NothingElseDelivered and HandlersAgree (two registered handlers see the same sequence) after every step.',
+         'notifications in order), NothingElseDelivered and HandlersAgree (two registered handlers see the same sequence) after every step. Added: spec/HandlerQueue.tla - a held / slow application handler, backlog across a reconnect; every notification carries the service\'s send number and the handler must see them in that order.',
     design_ref='DESIGN.md 5.8, 6 (C17), 14',
     note='F21 (tx data delivered before the accept) repaired. One scripted service; handler callbacks are recorded under a mutex in callback order.',
     technique='TLA+ spec + TLC exhaustive + scenario replay against the real client with trace validation'),
@@ -202,7 +202,7 @@ CHECKS = {
          'over real loop-back TCP (accept, close, reset); TLC evaluates on the recorded observations: StopTerminates (Stop returns within 5 s, Run '
          'returns), SavedAtStop / SavedAtRestart (what a fresh process loads from storage equals what was processed: chain tip, unconfirmed txs, '
          'peers), SilentAfterStop (no call-back after Stop returned), ResumeFromTip (the first block locator of a new connection names the stored '
-         'tip), NoReannounce (announced heights are consecutive over reconnects), PhaseOrder; and validates every step against the specification.',
+         'tip), NoReannounce (announced heights are consecutive over reconnects), PhaseOrder; and validates every step against the specification. Added: action Feed (a client thread blocked in Node.HandleTx on the full tx channel while the shutdown wants to close it).',
     design_ref='DESIGN.md 5.9, 6 (C19), 14',
     note='No untrusted peers and no silent peer (time-outs of minutes) are scripted; the goroutines of a connection are assumed started before a '
          'stop is requested. F19 (a failing tx consumer with a full channel blocks the shutdown) needs an environment fault outside the '
